@@ -233,7 +233,23 @@ def own_inspect_then_dec(prog):
 
 ASSERTS = {"notNotified", "expectedLock", "expectedRead", "expectedWrite"}
 
+def yield_then_stale_reload(prog):
+    """F29: a thread yields and later loads a location whose older store it has itself seen before the yield: it
+    created the atomic (main thread: the initial value) or accessed the location before yielding"""
+    for t, ops in enumerate(threads_of(prog)):
+        ys = [i for i, o in enumerate(ops) if o[0] in ("yield", "await")]
+        if not ys:
+            continue
+        y = ys[0]
+        for o in ops[y + 1:]:
+            if o[0] == "ld" and (t == 0 or any(b[0] in ATOMIC_READ | ATOMIC_WRITE and b[1] == o[1] for b in ops[:y])):
+                return True
+    return False
+
+
 SIGNATURES = {
+    # F29: stores a thread saw before its yield are pruned from ALL its later loads once a newer store exists
+    "seen-before-yield-prune": lambda p, kind, o: kind == "missing" and yield_then_stale_reload(p),
     # F4: a store is left unordered with an RMW although it is ordered after the store the RMW read
     # F27: two threads with a SeqCst fence: the fence order is treated as happens-before (a race hidden by it)
     "seqcst-fence-order-as-hb": lambda p, kind, o: kind == "missed_failure" and verdict(o).startswith("causality")
